@@ -427,7 +427,35 @@ def evaluate_encoding(prog):
                     err or "evaluate = Boolean-semiring count"))
     kids = prog.children(fn)
     if len(kids) != 1:
-        raise CheckerError("evaluate: expected one closure")
+        # the weight table filled in a loop: `params.set_weight(VarLabel::new(index), B(!p), B(p))` for (index, p) of the
+        # enumerated assignment
+        sw = [cs for cs in fn.terms.calls if cs.callee.name == "set_weight" and len(cs.args) == 4]
+        if len(sw) != 1:
+            out.append(inst("DP", fn.npath + ":encoding", UNDECIDED, fn, None, "?the encoding of the assignment as weights was not found"))
+            return out
+        lab, lo, hi = (strip(a) for a in sw[0].args[1:])
+
+        def bval(x):
+            x = strip(x)
+            return strip(x[4][0]) if x[0] == "agg" and str(x[2]).endswith("BooleanSemiring") and len(x[4]) == 1 else None
+        l_, h_ = bval(lo), bval(hi)
+        e = None
+        if l_ is None or h_ is None or not mir.is_call(lab, "new"):
+            e = "?set_weight(%s, %s, %s)" % (show(lab)[:30], show(lo)[:30], show(hi)[:30])
+        else:
+            neg_lo = l_[0] == "un" and l_[1] == "Not" and strip(l_[2]) == h_
+            neg_hi = h_[0] == "un" and h_[1] == "Not" and strip(h_[2]) == l_
+            item_i = [x for x in mir.subterms(lab[2][0]) if x[0] == "field" and x[2] == "0"]
+            item_p = [x for x in [h_] + list(mir.subterms(h_)) if x[0] == "field" and x[2] == "1"]
+            if neg_hi and not neg_lo:
+                e = "a variable assigned true gets low weight true and high weight false: the count evaluates the negated assignment"
+            elif not neg_lo:
+                e = "?low and high weight are %s and %s" % (show(l_)[:30], show(h_)[:30])
+            elif not item_i or not item_p or strip(item_i[0][1]) != strip(item_p[0][1]):
+                e = "?label and value do not come from one (index, value) item"
+        out.append(inst("DP", fn.npath + ":encoding", verdict_of([e] if e else []), fn, sw[0].line,
+                        (e or "").lstrip("?") or "(index, b) ↦ set_weight(label index, low = ¬b, high = b)"))
+        return out
     cl = kids[0]
     t = cl.terms.ret
     pol = F(P(2), "1")
